@@ -49,7 +49,10 @@ func TestReplay(t *testing.T) { vkit.Replay(t) }
 
 // C10Case is one generated scenario (plain JSON).
 type C10Case struct {
-	Topics     []string  `json:"topics"` // config.Topics, distinct
+	Topics     []string  `json:"topics"` // the distinct topics
+	// TopicList: the `topics` option as configured, as indices into Topics; empty = Topics as they are.
+	// A list may name a topic more than once (kafka subscribes to the set), every topic appears at least once.
+	TopicList []int `json:"topic_list,omitempty"`
 	Parts      []C10Part `json:"parts"`  // consumed partitions, distinct (topic, partition)
 	SingleProc bool      `json:"single_proc"`
 	Pool       string    `json:"pool"` // std | low_memory
@@ -103,6 +106,16 @@ func genC10(t *rapid.T) C10Case {
 	c := C10Case{}
 	nt := rapid.IntRange(1, 4).Draw(t, "ntopics")
 	c.Topics = append(c.Topics, rapid.Permutation(c10TopicPool).Draw(t, "topics")[:nt]...)
+	if rapid.IntRange(0, 3).Draw(t, "dup_topics") == 0 {
+		for i := 0; i < nt; i++ {
+			c.TopicList = append(c.TopicList, i)
+		}
+		for n := rapid.IntRange(1, 2).Draw(t, "ndup"); n > 0; n-- {
+			at := rapid.IntRange(0, len(c.TopicList)).Draw(t, "dup_at")
+			which := rapid.IntRange(0, nt-1).Draw(t, "dup_which")
+			c.TopicList = append(c.TopicList[:at], append([]int{which}, c.TopicList[at:]...)...)
+		}
+	}
 	c.SingleProc = rapid.IntRange(0, 3).Draw(t, "single") == 0
 	c.Pool = rapid.SampledFrom([]string{"std", "low_memory"}).Draw(t, "pool")
 	// small capacities make event objects recycle: UseSpread routes by the SeqID an event object
@@ -807,6 +820,18 @@ func c10Validate(c *C10Case) error {
 		}
 		seenT[t] = true
 	}
+	if len(c.TopicList) > 0 {
+		named := map[int]bool{}
+		for _, i := range c.TopicList {
+			if i < 0 || i >= len(c.Topics) {
+				return fmt.Errorf("topic_list index out of range")
+			}
+			named[i] = true
+		}
+		if len(named) != len(c.Topics) {
+			return fmt.Errorf("topic_list must name every topic")
+		}
+	}
 	seenP := map[string]bool{}
 	seenID := map[int]bool{}
 	for _, p := range c.Parts {
@@ -880,6 +905,12 @@ func runC10(c C10Case) *vkit.Outcome {
 		route, addr = "offline", "127.0.0.1:1"
 	}
 	config := &Config{Brokers: []string{addr}, Topics: append([]string{}, c.Topics...)}
+	if len(c.TopicList) > 0 {
+		config.Topics = config.Topics[:0]
+		for _, i := range c.TopicList {
+			config.Topics = append(config.Topics, c.Topics[i])
+		}
+	}
 	if c.WithMeta {
 		config.Meta = cfg.MetaTemplates{"kafka_topic": "{{ .topic }}", "kafka_partition": "{{ .partition }}", "kafka_offset": "{{ .offset }}"}
 	}
@@ -1085,6 +1116,9 @@ func runC10(c C10Case) *vkit.Outcome {
 	}
 	if c.WithMeta {
 		o.Class("with-meta")
+	}
+	if len(c.TopicList) > 0 {
+		o.Class("topic-listed-twice")
 	}
 	bks := make([]string, 0, len(h.boundaryCommitted))
 	for k := range h.boundaryCommitted {
